@@ -208,13 +208,17 @@ theorem sizeL_mid_lt {l : List Tok} {k : Tok} {c : Nat} (q : Nat) (h : indexOfFi
     sizeL ((l.take c).drop (q + 1)) < sizeL l :=
   Nat.lt_of_le_of_lt (sizeL_drop_le _ _) (sizeL_take_lt h)
 
+/-- `data.len() == 1 && matches!(data[0], ExprToken::Tokens(..))` -/
+def isSingleGroup : List Tok → Bool
+  | [.group _] => true
+  | _ => false
+
 mutual
 
 /-- `parse_formula` -/
 def parseFormula (data : List Tok) : Outcome Expr :=
-  match data with
-  | [.group _] => terminalP data   -- the "fast-forward" branch for `(...)`
-  | _ => iffP data
+  if isSingleGroup data then terminalP data   -- the "fast-forward" branch for `(...)`
+  else iffP data
 termination_by (sizeL data, 8)
 decreasing_by all_goals simp_wf; all_goals (apply Prod.Lex.right; omega)
 
